@@ -321,13 +321,13 @@ def items(tier, seed):
     fl = dict(force='mods', fargs={'alts': [allcrit]},
               job_open={'dur': [0, 2], 'out': ['raise'], 'critical': [True]},
               top_open={'k': ['nest']}, nest_open={}, kind='flat')
-    yield from spaces.mk(['nest21', 'nest22'], k=3 if th else 2, **fl)
+    yield from spaces.mk(['nest21', 'nest22'], k=2, **fl)
     fl2 = dict(fl, force='product',
                fargs={'parts': [('mods', {'alts': [allcrit]}),
                                 ('mods', {'alts': STAGGER})]})
-    yield from spaces.mk(['nest23', 'nest32'], k=2 if th else 1, **fl2)
+    yield from spaces.mk(['nest23', 'nest32'], k=1, **fl2)
     if th:
-        yield from spaces.mk(['nest33'], k=1, **fl2)
+        yield from spaces.mk(['nest33'], k=0, **fl2)
     yield from spaces.mk(['deep3'], force='mods', fargs={'alts': [allcrit]},
                          job_open={'dur': [0, 2], 'out': ['raise'],
                                    'critical': [True]},
